@@ -168,6 +168,10 @@ func dsVerify(f []string) vlib.Res {
 		switch {
 		case uint32(cw.maxPerDS) > caps[2]:
 			or = fmt.Sprintf("FAIL sig=ds/verify/digests-for-one-ds-past-candidate-cap digests=%d cap=%d keys=%d anchored=%v", cw.maxPerDS, caps[2], fx.k, anchoredWalk)
+		case uint32(cw.ops) > caps[2]*uint32(fx.d):
+			// (the per-DS counter above restarts whenever the implementation says "first candidate of a
+			// DS"; this bound does not depend on what the implementation says)
+			or = fmt.Sprintf("FAIL sig=ds/verify/digests-for-one-ds-past-candidate-cap digests=%d ds-records=%d cap=%d keys=%d anchored=%v", cw.ops, fx.d, caps[2], fx.k, anchoredWalk)
 		case uint32(cw.ops) > caps[5]:
 			or = fmt.Sprintf("FAIL sig=ds/verify/digests-past-ds-budget digests=%d cap=%d", cw.ops, caps[5])
 		}
